@@ -1,5 +1,6 @@
 import PcVerif.Ops.Util
 import PcVerif.Ops.Detect
+import PcVerif.Ops.Base
 namespace PcVerif.Ops
-def table : List (String × Proto.Handler) := utilOps ++ detectOps
+def table : List (String × Proto.Handler) := utilOps ++ detectOps ++ baseOps
 end PcVerif.Ops
